@@ -2071,6 +2071,25 @@ fn stream_json_as_yaml<W: AsRef<[u64]> + Clone, Out: core::fmt::Write>(
     current_indent: usize,
     indent_spaces: usize,
 ) -> core::fmt::Result {
+    stream_json_as_yaml_at_depth(out, value, current_indent, indent_spaces, 0)
+}
+
+/// [`stream_json_as_yaml`] with its nesting depth: one recursion per
+/// container level, so an unguarded walk overflows the stack on a deeply
+/// nested (non-validated) document -- about 18,000 levels of `[` on an 8 MiB
+/// stack in release. Past [`MAX_NESTING_DEPTH`](crate::jq::eval_generic::MAX_NESTING_DEPTH),
+/// the ceiling the crate's other cursor walks use, this reports
+/// `fmt::Error` like every other unrepresentable value here.
+fn stream_json_as_yaml_at_depth<W: AsRef<[u64]> + Clone, Out: core::fmt::Write>(
+    out: &mut Out,
+    value: StandardJson<'_, W>,
+    current_indent: usize,
+    indent_spaces: usize,
+    depth: usize,
+) -> core::fmt::Result {
+    if depth >= crate::jq::eval_generic::MAX_NESTING_DEPTH {
+        return Err(core::fmt::Error);
+    }
     match value {
         StandardJson::Null => out.write_str("null"),
         StandardJson::Bool(b) => out.write_str(if b { "true" } else { "false" }),
@@ -2108,7 +2127,7 @@ fn stream_json_as_yaml<W: AsRef<[u64]> + Clone, Out: core::fmt::Write>(
                         out.write_str(", ")?;
                     }
                     first = false;
-                    stream_json_as_yaml(out, elem, 0, 0)?;
+                    stream_json_as_yaml_at_depth(out, elem, 0, 0, depth + 1)?;
                 }
                 out.write_char(']')
             } else {
@@ -2124,18 +2143,20 @@ fn stream_json_as_yaml<W: AsRef<[u64]> + Clone, Out: core::fmt::Write>(
                     if is_json_container(&elem) {
                         out.write_char('\n')?;
                         write_json_yaml_indent(out, current_indent + indent_spaces)?;
-                        stream_json_as_yaml(
+                        stream_json_as_yaml_at_depth(
                             out,
                             elem,
                             current_indent + indent_spaces,
                             indent_spaces,
+                            depth + 1,
                         )?;
                     } else {
-                        stream_json_as_yaml(
+                        stream_json_as_yaml_at_depth(
                             out,
                             elem,
                             current_indent + indent_spaces,
                             indent_spaces,
+                            depth + 1,
                         )?;
                     }
                 }
@@ -2164,7 +2185,7 @@ fn stream_json_as_yaml<W: AsRef<[u64]> + Clone, Out: core::fmt::Write>(
                         out.write_str("\"\"")?;
                     }
                     out.write_str(": ")?;
-                    stream_json_as_yaml(out, field.value(), 0, 0)?;
+                    stream_json_as_yaml_at_depth(out, field.value(), 0, 0, depth + 1)?;
                 }
                 out.write_char('}')
             } else {
@@ -2189,19 +2210,21 @@ fn stream_json_as_yaml<W: AsRef<[u64]> + Clone, Out: core::fmt::Write>(
                     if is_json_container(&val) {
                         out.write_char('\n')?;
                         write_json_yaml_indent(out, current_indent + indent_spaces)?;
-                        stream_json_as_yaml(
+                        stream_json_as_yaml_at_depth(
                             out,
                             val,
                             current_indent + indent_spaces,
                             indent_spaces,
+                            depth + 1,
                         )?;
                     } else {
                         out.write_char(' ')?;
-                        stream_json_as_yaml(
+                        stream_json_as_yaml_at_depth(
                             out,
                             val,
                             current_indent + indent_spaces,
                             indent_spaces,
+                            depth + 1,
                         )?;
                     }
                 }
